@@ -21,6 +21,7 @@ import (
 	"go.dedis.ch/kyber/v4/sign/eddsa"
 	"go.dedis.ch/kyber/v4/sign/schnorr"
 	"verif/harness/alpha"
+	"verif/harness/checks/c11"
 	"verif/harness/groups"
 	"verif/harness/vf"
 )
@@ -48,8 +49,49 @@ type world struct {
 	pub     kyber.Point
 }
 
-func mkShares(ed kyber.Group, label string, n, t int) ([]*dks, *big.Int) {
+// lagrange0 interpolates the secret (value at 0) from shares in math/big; share i sits at x = i+1.
+func lagrange0(shs []*share.PriShare, q *big.Int) *big.Int {
+	acc := new(big.Int)
+	for i, a := range shs {
+		num, den := big.NewInt(1), big.NewInt(1)
+		xi := big.NewInt(int64(a.I) + 1)
+		for j, b := range shs {
+			if i == j {
+				continue
+			}
+			xj := big.NewInt(int64(b.I) + 1)
+			num.Mul(num, xj).Mod(num, q)
+			d := new(big.Int).Sub(xj, xi)
+			den.Mul(den, d.Mod(d, q)).Mod(den, q)
+		}
+		vb, _ := a.V.MarshalBinary()
+		for l, r := 0, len(vb)-1; l < r; l, r = l+1, r-1 {
+			vb[l], vb[r] = vb[r], vb[l]
+		}
+		term := new(big.Int).SetBytes(vb)
+		term.Mul(term, num).Mul(term, new(big.Int).ModInverse(den, q)).Mod(term, q)
+		acc.Add(acc, term).Mod(acc, q)
+	}
+	return acc
+}
+
+func mkShares(ed kyber.Group, src, label string, n, t int) ([]*dks, *big.Int) {
 	q := groups.OrderEd25519
+	if src != "poly" {
+		ks, err := c11.KeysFromDKG(src, n, t, label)
+		if err != nil {
+			panic(err)
+		}
+		var out []*dks
+		var shs []*share.PriShare
+		for _, k := range ks {
+			out = append(out, &dks{k.Share, k.Commits})
+			if len(shs) < t {
+				shs = append(shs, k.Share)
+			}
+		}
+		return out, lagrange0(shs, q)
+	}
 	var coeffs []kyber.Scalar
 	var c0 *big.Int
 	for i := 0; i < t; i++ {
@@ -73,7 +115,7 @@ func clonePS(ps *dss.PartialSig) *dss.PartialSig {
 		SessionID: append([]byte{}, ps.SessionID...), Signature: append([]byte{}, ps.Signature...)}
 }
 
-func newWorld(n, t, p int, msg []byte) *world {
+func newWorld(src string, n, t, p int, msg []byte) *world {
 	w := &world{n: n, t: t, p: p, msg: msg, events: map[string]*dss.PartialSig{}}
 	ed := edwards25519.NewBlakeSHA256Ed25519()
 	w.suite = func(label string) dss.Suite {
@@ -85,9 +127,9 @@ func newWorld(n, t, p int, msg []byte) *world {
 		w.secs, w.pubs = append(w.secs, s), append(w.pubs, ed.Point().Mul(s, nil))
 	}
 	var x, k *big.Int
-	w.long, x = mkShares(ed, "long", n, t)
-	w.rnd, k = mkShares(ed, "random", n, t)
-	w.rnd2, _ = mkShares(ed, "random-other-session", n, t)
+	w.long, x = mkShares(ed, src, "long", n, t)
+	w.rnd, k = mkShares(ed, src, "random", n, t)
+	w.rnd2, _ = mkShares(ed, src, "random-other-session", n, t)
 	w.pub = w.long[0].commits[0]
 	// reference signature: R || (k + H(R,A,m) x)
 	R := w.rnd[0].commits[0]
@@ -175,22 +217,29 @@ func Run(c *vf.Check) {
 						continue
 					}
 					n, t, p, msg := n, t, p, msg
-					jobs = append(jobs, func() { explore(c, n, t, p, msg) })
+					jobs = append(jobs, func() { explore(c, "poly", n, t, p, msg) })
+				}
+				// keys produced by the DKG implementations themselves (thresholds both accept)
+				if t >= n/2+1 && (n == 3 || c.Thorough()) && (p == 0 || p == n-1 || c.Thorough()) {
+					for _, src := range []string{"pedersen", "pedersen-fast", "rabin"} {
+						n, t, p, src := n, t, p, src
+						jobs = append(jobs, func() { explore(c, src, n, t, p, []byte("c12 message")) })
+					}
 				}
 			}
 		}
 	}
 	vf.Parallel(len(jobs), func(i int) { jobs[i]() })
-	c.Finish("engine S (explicit-state BFS, successor = replay on a fresh DSS object, merged on the model's accepted set + EnoughPartialSig): n=3,4 (thorough ..5), every 2<=t<=n, at every participant (n=4: first and last): all histories up to depth n+2 over {own PartialSig(), per other signer: valid partial, value+1 re-signed, signature bit-flipped; own partial echoed back; partial of another session, for another message, with replaced session id, with index n, n+1, 2^32-1 and the receiver's own index}. "+
+	c.Finish("engine S (explicit-state BFS, successor = replay on a fresh DSS object, merged on the model's accepted set + EnoughPartialSig): n=3,4 (thorough ..5), every 2<=t<=n, at every participant (n=4: first and last), keys from seeded polynomials and (n=3; thorough also 4, 5) from the Pedersen, Pedersen fast-sync and Rabin DKG implementations: all histories up to depth n+2 over {own PartialSig(), per other signer: valid partial, value+1 re-signed, signature bit-flipped; own partial echoed back; partial of another session, for another message, with replaced session id, with index n, n+1, 2^32-1 and the receiver's own index}. "+
 		"Oracle after every transition: ProcessPartialSig succeeds exactly for a first valid partial of this session; EnoughPartialSig <=> |accepted| >= t; Signature() errors below t and otherwise returns exactly R || (k + H(R,A,m) x) computed with math/big from the polynomials, which verifies under dss.Verify, eddsa.Verify and crypto/ed25519 - identical in every state and at every participant. "+
 		"non-trivial = histories of length >= 2 reaching a new accepted set",
-		[]string{"long-term and one-time distributed keys are (share, commitment) pairs of seeded polynomials through the DistKeyShare interface; keys produced by the two DKG implementations are exercised in C11's end-state oracle", "state merging assumes the accepted set determines future behaviour"}, nil)
+		[]string{"distributed keys: (share, commitment) pairs of seeded polynomials for every n, t; for the thresholds the DKGs accept additionally the outputs of all-honest runs of the real Pedersen (regular and fast-sync) and Rabin DKG code, the reference secret then interpolated in math/big from the shares", "state merging assumes the accepted set determines future behaviour"}, nil)
 }
 
-func explore(c *vf.Check, n, t, p int, msg []byte) {
+func explore(c *vf.Check, src string, n, t, p int, msg []byte) {
 	pk := "C12/dss"
 	var w *world
-	c.Case(fmt.Sprintf("dss n=%d t=%d p=%d msg=%d: setup", n, t, p, len(msg)), pk+"/setup", func(x *vf.Ctx) { w = newWorld(n, t, p, msg) })
+	c.Case(fmt.Sprintf("dss keys=%s n=%d t=%d p=%d msg=%d: setup", src, n, t, p, len(msg)), pk+"/setup", func(x *vf.Ctx) { w = newWorld(src, n, t, p, msg) })
 	if w == nil {
 		return
 	}
@@ -203,7 +252,7 @@ func explore(c *vf.Check, n, t, p int, msg []byte) {
 		var next []node
 		for _, nd := range frontier {
 			hist := nd.hist
-			id := fmt.Sprintf("dss n=%d t=%d at=%d msglen=%d: %s", n, t, p, len(msg), strings.Join(hist, " ; "))
+			id := fmt.Sprintf("dss keys=%s n=%d t=%d at=%d msglen=%d: %s", src, n, t, p, len(msg), strings.Join(hist, " ; "))
 			key := ""
 			c.Case(id, pk, func(x *vf.Ctx) {
 				d, err := dss.NewDSS(w.suite("observer"), w.secs[p], w.pubs, w.long[p], w.rnd[p], msg, uint32(t))
